@@ -238,6 +238,10 @@ def run(chk, tier):
             return self.types[i]
     chk.control("mut-context-cast-matcher", _is_mut_ctx_ptr(_P(), 1) and not _is_mut_ctx_ptr(_P(), 2))
     chk.extra["functions_analysed"] = total_entries
+    # a value handed to an allocation function must be moved into the block, not destructed by that function
+    # (it would be a destructor of an arena value running inside a callback)
+    from gcv import rules_builder
+    rules_builder.value_moved_into_block(chk, model.Program(fx["default"], "default"))
     chk.extra["K"] = K
 
 
